@@ -106,6 +106,48 @@ Theorem c19_startable_nonneg : forall W G, sd_startable true W G = true <-> 0 <=
 Proof. exact sd_startable_nonneg. Qed.
 Print Assumptions c19_startable_nonneg.
 
+(** Further termination signals. Model/Shutdown.v delivers every signal after the first to the process as the Go runtime
+    does (registered kinds SIGHUP 1, SIGINT 2, SIGTERM 15, SIGQUIT 3 go into the one-slot channel that nobody reads again;
+    any other kind has its default disposition and ends the process). The outcome - exit time, exit status, which requests
+    are accepted and which complete - is a function of the FIRST signal only: further registered signals, of any kind, in
+    any number, at any instants (during the wait-before period, while draining, after the exit) are no-ops ... *)
+Theorem c19_first_signal_only : forall W G l extra,
+  sd_all_handled extra = true -> sd_outcome W G l extra = sd_outcome W G l [].
+Proof. exact sd_extra_signals_noop. Qed.
+Print Assumptions c19_first_signal_only.
+
+Theorem c19_one_signal_outcome : forall W G l,
+  sd_outcome W G l [] = (sd_exit_time W G l, sd_exit_code W G l, map (sd_accepted W) l, map (sd_completes W G) l).
+Proof. exact sd_outcome_one_signal. Qed.
+Print Assumptions c19_one_signal_outcome.
+
+(** ... so every statement above holds verbatim with further signals: *)
+Theorem c19_further_signals_pointwise : forall W G l extra, sd_all_handled extra = true ->
+  sd_exit_time_x W G l extra = sd_exit_time W G l /\ sd_exit_code_x W G l extra = sd_exit_code W G l /\
+  (forall q, sd_accepted_x W G l extra q = sd_accepted W q) /\ (forall q, sd_completes_x W G l extra q = sd_completes W G q).
+Proof. exact sd_extra_signals_pointwise. Qed.
+Print Assumptions c19_further_signals_pointwise.
+
+Theorem c19_no_cutoff_further_signals : forall W G l extra q, 0 <= W -> sd_all_handled extra = true ->
+  sd_accepted_x W G l extra q = true -> sd_arrival q + sd_service q <= G -> sd_completes_x W G l extra q = true.
+Proof.
+  intros W G l extra q H0 He. destruct (sd_extra_signals_pointwise W G l extra He) as (_ & _ & Ha & Hc).
+  rewrite Ha, Hc. now apply sd_no_cutoff.
+Qed.
+Print Assumptions c19_no_cutoff_further_signals.
+
+Theorem c19_exit_within_graceful_further_signals : forall W G l extra, 0 <= W -> W < G -> sd_exit_time_x W G l extra <= G.
+Proof. intros W G l extra H0 H1. pose proof (sd_exit_time_x_le W G l extra). pose proof (sd_exit_le_G W G l H0 H1). lia. Qed.
+Print Assumptions c19_exit_within_graceful_further_signals.
+
+(** ... and the restriction to the registered kinds is needed: an unregistered signal (SIGKILL) ends the process at once,
+    cutting off a request although time remains, before the wait-before period is over, with a signal status. *)
+Theorem c19_unregistered_signal_refuted :
+  exists W G q extra, 0 <= W /\ W < G /\ sd_accepted W q = true /\ sd_finish q <= G /\
+    sd_completes_x W G [q] extra q = false /\ sd_exit_code_x W G [q] extra = -9 /\ sd_exit_time_x W G [q] extra < W.
+Proof. exact sd_unregistered_signal_kills. Qed.
+Print Assumptions c19_unregistered_signal_refuted.
+
 (** Non-vacuity: W = 1 s, G = 3 s; one request in flight at the signal that finishes in time, one arriving during
     the wait-before period that finishes in time, one too slow, one arriving after the listener closed. *)
 Definition c19_ex : list sd_req :=
@@ -129,3 +171,9 @@ Qed.
 Example c19_nonvacuous_started : cf_starts cf_cur cf_ex_good cf_ex_disc = true /\
   sd_startable true (-1000000000) 1000000000 = false /\ sd_startable false (-1000000000) 1000000000 = true.
 Proof. split; [exact cf_ex_good_starts|split; reflexivity]. Qed.
+(* further signals: SIGTERM at 0.35 s (wait-before period), SIGHUP at 1.4 s (draining), SIGQUIT after the exit *)
+Example c19_nonvacuous_further_signals :
+  sd_all_handled [mk_sd_sig 350000000 15; mk_sd_sig 1400000000 1; mk_sd_sig 9000000000 3] = true /\
+  sd_all_handled [mk_sd_sig 350000000 9] = false /\
+  sd_exit_time_x 1000000000 3000000000 c19_ex [mk_sd_sig 350000000 15; mk_sd_sig 1400000000 1] = 2511000000.
+Proof. vm_compute. repeat split. Qed.
